@@ -11,12 +11,14 @@ ID = 'C19'
 SHARDS_THOROUGH = 16
 SHARDS_QUICK = 4
 RULE = ('Hypothesis **kern scores of C07\'s domain (kern-only, 1-3 spines, pick-up or not, final barline or not, nested '
-        're-joined splits) cut in front of barline rows into 1-6 fragments, with three separator conventions (separator '
+        're-joined splits) cut in front of barline rows into 1-6 fragments, with four separator conventions (separator '
         '"\\n" and fragments without final newline; separator "" and fragments ending in a newline; separator "\\n" and '
-        'fragments ending in a newline, i.e. blank lines between fragments); in half of the cases one measure of the score '
+        'fragments ending in a newline, i.e. blank lines between fragments; separator "" and a score text without final '
+        'newline); a third of the scores keep a split open across barlines, so that a cut can fall inside a split '
+        'section; in half of the cases one measure of the score '
         'is written twice (literal repeat: two fragments can be equal strings) and the cut sets include the one that '
         'isolates both copies.  Thorough tier: EVERY set of <=5 cut '
-        'positions x the three conventions for each document; quick tier: all single cuts, all pairs and 4 drawn larger '
+        'positions x the four conventions for each document; quick tier: all single cuts, all pairs and 4 drawn larger '
         'sets per document with a convention rotating per cut set.  Oracle: concat(fragments) must give a document whose '
         'deep snapshot and six exports equal those of loads(joined text); one (from, to) pair per fragment; consecutive '
         'pairs (next from = to + 1); first from in {0, 1}; last to == measures_count(); the data lines of '
@@ -26,14 +28,14 @@ RULE = ('Hypothesis **kern scores of C07\'s domain (kern-only, 1-3 spines, pick-
 ASSUMPTIONS = ['measure model of C07 (kv/measures.py)', 'a "data line" is a line that is neither an interpretation nor a barline',
                'a first fragment that contains no measure at all (preamble only) makes concat raise: known finding '
                'KF-C19-NOMEASURE, recognised by that exact situation']
-CONV = [('\n', False), ('', True), ('\n', True)]
+CONV = [('\n', False), ('', True), ('\n', True), ('', 'all-but-last')]
 
 
 @st.composite
 def cases(draw):
-    doc = draw(D.measure_documents(D.mprofile(max_measures=5, others=False)))
+    doc = draw(D.measure_documents(D.mprofile(max_measures=5, others=False, rejoin_before_bar=draw(st.integers(0, 2)) > 0)))
     extra = [sorted(set(draw(st.lists(st.integers(0, 7), min_size=3, max_size=5)))) for _ in range(4)]
-    return {'doc': doc, 'extra': extra, 'rot': draw(st.integers(0, 2)),
+    return {'doc': doc, 'extra': extra, 'rot': draw(st.integers(0, 3)),
             'dup': draw(st.one_of(st.none(), st.integers(0, 4)))}
 
 
@@ -58,25 +60,25 @@ def duplicated(doc, k):
 def cut_sets(case, bars, exhaustive, dup_at=None):
     nb = len(bars)
     if dup_at is not None and not exhaustive:
-        for ci in range(3):  # both copies of the repeated measure as fragments of their own
+        for ci in range(4):  # both copies of the repeated measure as fragments of their own
             yield [dup_at, dup_at + 1, dup_at + 2], ci
     if exhaustive:
         for r in range(0, min(5, nb) + 1):
             for sub in itertools.combinations(range(nb), r):
-                for ci in range(3):
+                for ci in range(4):
                     yield list(sub), ci
         return
     j = case['rot']
-    yield [], j % 3
+    yield [], j % 4
     for r in (1, 2):
         for sub in itertools.combinations(range(nb), r):
             j += 1
-            yield list(sub), j % 3
+            yield list(sub), j % 4
     for e in case['extra']:
         sub = sorted({x % nb for x in e}) if nb else []
         if len(sub) >= 3:
             j += 1
-            yield sub[:5], j % 3
+            yield sub[:5], j % 4
 
 
 def check_case(case, exhaustive):
@@ -97,6 +99,8 @@ def check_case(case, exhaustive):
         cuts = [0] + [bars[x] for x in sub] + [len(lines)]
         frag_rows = [list(range(cuts[i], cuts[i + 1])) for i in range(len(cuts) - 1)]
         frags = ['\n'.join(lines[r] for r in rows) + ('\n' if final_nl else '') for rows in frag_rows]
+        if final_nl == 'all-but-last':
+            frags[-1] = frags[-1][:-1]  # the score text does not end with a newline
         joined = ''.join(sep + f for f in frags)
         evals += 1
         tag = f'cuts before rows {cuts[1:-1]}, separator {sep!r}, final newline {final_nl}'
